@@ -9,7 +9,7 @@
      C12  Red Hat notation                                (construct + fromrh events)
      C15  temporal / environmental sub-vectors            (construct events, v2 / v3)
    Verdicts are total: "ok" or the name of the first failing clause.                        *)
-EXTENDS Api, Json, IOUtils, FiniteSets, TraceData
+EXTENDS Api, ParserMachine, Json, IOUtils, FiniteSets, TraceData
 CONSTANT Prop
 T == TraceData
 VARIABLES i, ph
@@ -27,6 +27,14 @@ C04(e) == LET p == Parse(e.ver, e.s) IN
    ELSE IF ~e.out.e.is_cvss_error THEN "foreign-exception-" \o e.out.e.exc
    ELSE IF p.cls = "ok" THEN "rejected-valid-" \o e.out.e.exc
    ELSE IF e.out.e.exc = ExcName(e.ver, p.cls) THEN "ok" ELSE "wrong-error-class-" \o e.out.e.exc \o "-for-" \o p.cls
+
+\* beyond the property: the machine of ParserMachine.tla (implementation step order) must agree with the
+\* grammar (else the specification is inconsistent) and predicts the exact text of the error message
+C04M(e) == LET mo == Machine(e.ver, e.s) IN
+   IF mo.cls # Classify(e.ver, e.s) THEN "SPEC-INCONSISTENT-machine-does-not-refine-grammar"
+   ELSE IF Ok(e) THEN "ok"
+   ELSE IF mo.cls = "ok" THEN "ok"                       \* C04's business
+   ELSE IF e.out.e.msg = (IF Len(mo.msg) > 300 THEN SubSeq(mo.msg, 1, 300) ELSE mo.msg) THEN "ok" ELSE "message-differs:" \o mo.msg
 
 \* ---- C07 (per event) -------------------------------------------------------------------------
 FieldsOf(ver, body) == IF body = "" THEN <<>> ELSE Split(body, "/")
@@ -135,10 +143,13 @@ C15(e) ==
         ELSE "ok"
 
 Verdict(e) == CASE Prop = "C04" -> C04(e)
+                [] Prop = "C04M" -> C04M(e)
                 [] Prop = "C07" -> (IF e.op = "pool" THEN C07Pool(e) ELSE C07(e))
                 [] Prop = "C08" -> (IF e.op = "builder" THEN C08B(e) ELSE C08(e))
                 [] Prop = "C12" -> C12(e)
                 [] Prop = "C15" -> C15(e)
 Inv == ph = 0 \/ (IF i = 0 THEN (Prop # "C07" \/ C07Order = "ok" \/ PrintT("FAIL 0 " \o C07Order))
-                  ELSE LET v == Verdict(T[i]) IN v = "ok" \/ PrintT("FAIL " \o ToString(i) \o " " \o v))
+                  ELSE LET v == Verdict(T[i]) IN
+                       /\ (v = "ok" \/ PrintT("FAIL " \o ToString(i) \o " " \o v))
+                       /\ (Prop = "C04" => LET n == C04M(T[i]) IN n = "ok" \/ PrintT("NOTE " \o ToString(i) \o " " \o n)))
 =============================================================================
